@@ -4,7 +4,7 @@ import re
 first set missed (DESIGN §8).  Each is a condition whose violation breaks behaviour; none matches text."""
 from oracle import defs as D
 from rules import grd as G
-from rules.core import simplify_proj
+from rules.core import simplify_proj, ShapeUnknown
 from rules.core import (path_conditions, reach_alternatives, op_expr, rvalue_expr, show, strip_casts, expr_calls, expr_consts,
                         callee_name, last_seg, pol_is_variant, tbl_eval, NotATable, fold, AnchorMissing)
 
@@ -2053,12 +2053,21 @@ def rule_unchecked_window(col, facts):
             if e[0] == "bin" and e[1] in ("Le", "Lt", "Ge", "Gt") and any(strip_casts(x)[0] == "call" and last_seg(strip_casts(x)[1]) == "overflow_digits" or
                                                                        (strip_casts(x)[0] == "bin" and strip_casts(x)[1] in ("Add", "Sub") and any(strip_casts(y)[0] == "call" and last_seg(strip_casts(y)[1]) == "overflow_digits" for y in (strip_casts(x)[2], strip_casts(x)[3]))) for x in (e[2], e[3])):
                 found.append((i, e))
-        col.check(R, name + ":guard-present", len(found) >= 1, "no comparison with overflow_digits(..) found", f.loc())
+        if not found:
+            raise ShapeUnknown("%s: no comparison with overflow_digits(..) found" % name)
         for i, e in found:
             n += 1
-            lhs, rhs = strip_casts(e[2]), strip_casts(e[3])
-            ok = e[1] == "Le" and rhs[0] == "call" and last_seg(rhs[1]) == "overflow_digits" and lhs[0] == "call" and last_seg(lhs[1]) == "len" and \
-                any(last_seg(c[1]) == "as_slice" for c in expr_calls(lhs)) and any(last_seg(c[1]) == "integer_iter" for c in expr_calls(lhs))
+            lhs, rhs, op = strip_casts(e[2]), strip_casts(e[3]), e[1]
+            if lhs[0] == "call" and last_seg(lhs[1]) == "overflow_digits" or (lhs[0] == "bin" and any(last_seg(c[1]) == "overflow_digits" for c in expr_calls(lhs))):
+                lhs, rhs, op = rhs, lhs, {"Le": "Ge", "Lt": "Gt", "Ge": "Le", "Gt": "Lt"}[op]      # digits on the left
+            exact_od = rhs[0] == "call" and last_seg(rhs[1]) == "overflow_digits"
+            calls = {last_seg(c[1]) for c in expr_calls(lhs)}
+            # the digits remaining after the sign: integer_iter().as_slice().len(), or buffer_length() - cursor()
+            remaining = "integer_iter" in calls and ((lhs[0] == "call" and last_seg(lhs[1]) == "len" and "as_slice" in calls) or
+                                                     (lhs[0] == "bin" and lhs[1] == "Sub" and last_seg(strip_casts(lhs[2])[1] if strip_casts(lhs[2])[0] == "call" else "") == "buffer_length"
+                                                      and last_seg(strip_casts(lhs[3])[1] if strip_casts(lhs[3])[0] == "call" else "") == "cursor"))
+            # `remaining <= od` enters the fast path; `remaining > od` is the same test read the other way
+            ok = exact_od and remaining and op in ("Le", "Gt")
             col.check(R, "%s:window#%d" % (name, n), ok,
                       "`%s`: the wrapping fast path must be entered only when the digits remaining after the sign (integer_iter().as_slice().len()) number at most overflow_digits(radix), with nothing added" % show(e)[:160], f.loc(f.blocks[i]["ts"]))
 
@@ -2110,7 +2119,8 @@ def rule_sign_in_accumulation(col, facts):
             fam[family][kind] += 1
             n += 1
             if kind == "sub":
-                negs = [p for _d, e, p in path_conditions(f, bb) if isinstance(p, bool) and "parse_sign" in show(e) and strip_casts(e)[0] == "proj"]
+                # (`if is_negative`, or an arm of `match (may_overflow, is_negative)`: a field of a tuple built from it)
+                negs = [p for _d, e, p in path_conditions(f, bb) if isinstance(p, bool) and any(last_seg(c_[1]) == "parse_sign" for c_ in expr_calls(simplify_proj(strip_casts(e)))) and strip_casts(simplify_proj(strip_casts(e)))[0] == "proj"]
                 if negs and negs[-1] is True:
                     fam[family]["sub_neg"] += 1
         for family in ("unchecked", "checked"):
@@ -2757,7 +2767,22 @@ def rule_bellerophon_underflow_order(col, facts):
         if not f.live(i) or b["t"]["k"] != "switch":
             continue
         e = strip_casts(op_expr(f, b["t"]["d"]))
-        if not (e[0] == "bin" and e[1] in ("Gt", "Ge", "Eq", "Lt", "Le", "Ne") and "Neg" in show(e) and any(strip_casts(x)[0] == "k" and isinstance(strip_casts(x)[1], int) and 60 <= abs(strip_casts(x)[1]) <= 70 for x in (e[2], e[3]))):
+        if not (e[0] == "bin" and e[1] in ("Gt", "Ge", "Eq", "Lt", "Le", "Ne") and any(strip_casts(x)[0] == "k" and isinstance(strip_casts(x)[1], int) and not isinstance(strip_casts(x)[1], bool) and 60 <= abs(strip_casts(x)[1]) <= 70 for x in (e[2], e[3]))):
+            continue
+        # ... a comparison of (a linear form of) one stored field with a constant near 64/65, however it is spelt:
+        # `-fp.exp + 1 > 65`, `fp.exp < -64`, `1 - fp.exp >= 66`
+        leaves = []
+        def _leaves(x):
+            x = strip_casts(simplify_proj(x))
+            if x[0] == "k":
+                return
+            if x[0] == "un" and x[1] == "Neg":
+                return _leaves(x[2])
+            if x[0] == "bin" and x[1] in ("Add", "Sub"):
+                _leaves(x[2]); _leaves(x[3]); return
+            leaves.append(x)
+        _leaves(e[2]); _leaves(e[3])
+        if len({show(x) for x in leaves}) != 1 or leaves[0][0] != "proj":
             continue
         # the test as a predicate of the denormal shift s = -exp + 1: evaluate it with exp = 1 - s
         def _ev(x, exp):
@@ -2774,7 +2799,7 @@ def rule_bellerophon_underflow_order(col, facts):
             a_, b_ = _ev(e[2], 1 - s_), _ev(e[3], 1 - s_)
             return {"Gt": a_ > b_, "Ge": a_ >= b_, "Eq": a_ == b_, "Lt": a_ < b_, "Le": a_ <= b_, "Ne": a_ != b_}[e[1]]
         # which edge returns zero?  the one whose successor builds the literal: approximate by "the edge taken for a huge shift"
-        zero_when = _holds(1000)
+        zero_when = True if e[1] == "Eq" else (False if e[1] == "Ne" else _holds(1000))
         n += 1
         admits65 = (_holds(65) == zero_when)
         # (the accuracy test itself is skipped when lossy, so it does not dominate what follows it: what must not
@@ -2955,7 +2980,9 @@ def rule_required_sign_enforced(col, facts):
             if not (e[0] == "agg" and e[1][0] == "adt" and e[1][3] == "Ok" and strip_casts(e[2][0]) in (("k", False), ("k", 0))):
                 continue
             # Ok(false): was a '+' consumed on this path?  (then `false` means "positive", not "no sign")
-            plus = any(p == ("eq", 43) for a, p in atoms)
+            # (read off the path itself: a byte was consumed - however the `+` was recognised)
+            steps = {bb for bb, c, a_, d, t_ in f.calls() if last_seg(callee_name(c)) in ("step_unchecked", "step_by_unchecked", "next", "read_if", "read_if_value", "read_if_value_cased", "read_if_value_uncased", "set_cursor")}
+            plus = any(p == ("eq", 43) for a, p in atoms) or bool(steps & env["__blocks__"])
             if plus:
                 continue
             seen += 1
